@@ -104,6 +104,33 @@ func hexCase(c *fw.Ctx) {
 		text = text + "\n0\n8"
 		kind = "split-byte"
 	}
+	hexEval(c, b, text, kind)
+}
+
+// hexLongCase: one physical line longer than 64 KiB (a blob written on one line), between short lines,
+// optionally followed by a line that is not hex.
+func hexLongCase(c *fw.Ctx, n int, spaced, garbage bool) {
+	b := append([]byte{0x08, 0x01}, c.Rng.Bytes(n)...)
+	b = append(b, 0x10, 0x02)
+	var sb strings.Builder
+	sb.WriteString("08 01 ; header\n")
+	for _, x := range b[2 : 2+n] {
+		fmt.Fprintf(&sb, "%02x", x)
+		if spaced {
+			sb.WriteByte(' ')
+		}
+	}
+	sb.WriteString("\n10 02 ; trailer\n")
+	kind := "valid"
+	if garbage {
+		sb.WriteString("zz not hex\n")
+		kind = "corrupt-char"
+	}
+	hexEval(c, b, sb.String(), kind)
+}
+
+func hexEval(c *fw.Ctx, b []byte, text, kind string) {
+	r := c.Rng
 	c.Journal("C20 hex " + trunc(hex.EncodeToString([]byte(text)), 2000))
 	got, err := func() (b []byte, err error) {
 		defer func() {
@@ -451,6 +478,12 @@ func runC20(c *fw.Ctx) int {
 	if c.Tier == "thorough" {
 		nHex, nDump = 200000, 12000
 	}
+	// lines around and well beyond 64 KiB
+	for _, n := range []int{21845, 21846, 32767, 32768, 40000} {
+		hexLongCase(c, n, n%2 == 1 || n == 40000, false)
+		hexLongCase(c, n, n%2 == 0, true)
+	}
+	c.FlushModel()
 	for i := 0; i < nHex; i++ {
 		hexCase(c)
 		if i%20000 == 19999 {
@@ -467,7 +500,7 @@ func runC20(c *fw.Ctx) int {
 		c.LeanChecker("C20")
 	}
 	return c.Finish(
-		"hex: random byte strings rendered with random Unicode whitespace, upper/lower-case digits, ';' comments (containing ';', hex digits, non-ASCII), LF/CRLF line breaks between bytes and spaces between the two digits of a byte; 30% corrupted (foreign character outside a comment, odd digit count on a line, line break inside a byte); dump: protodump built from /repo and run as a sub-process (-file, redirected stdin, pipe) on random message trees of depth <= 3 (valid, truncated, bit-flipped, junk) with random subsets of the true nested/string paths plus decoy paths, in the accepted flag spellings, stdout compared with the Lean model and with an independent protowire rendering; paths: 23 legal and illegal flag spellings; non-trivial = non-empty bytes (hex) / message containing a nested or string field (dump)",
+		"hex: blobs of 21845..40000 bytes written on one physical line (up to 120000 characters) between short lines, alone and followed by a non-hex line; random byte strings rendered with random Unicode whitespace, upper/lower-case digits, ';' comments (containing ';', hex digits, non-ASCII), LF/CRLF line breaks between bytes and spaces between the two digits of a byte; 30% corrupted (foreign character outside a comment, odd digit count on a line, line break inside a byte); dump: protodump built from /repo and run as a sub-process (-file, redirected stdin, pipe) on random message trees of depth <= 3 (valid, truncated, bit-flipped, junk) with random subsets of the true nested/string paths plus decoy paths, in the accepted flag spellings, stdout compared with the Lean model and with an independent protowire rendering; paths: 23 legal and illegal flag spellings; non-trivial = non-empty bytes (hex) / message containing a nested or string field (dump)",
 		append(trustedCommon, "encoding/hex, unicode.IsSpace, strings.Split, strconv.Atoi as mirrored in the model (compared by correspondence)", "protowire-based reference rendering written in the harness"),
 		[]string{"a line break between the two digits of one byte is rejected with an error (never mis-decoded); the completeness theorem quantifies over line breaks between bytes",
 			"tag paths match exactly (as the repository's own tests pin); the doc comment's '0 = wildcard' is not implemented and not assumed"})
